@@ -39,8 +39,10 @@ def generate(rng, tier):
         dom = rng.choice([1, 28, 29, 30, maxdom, rng.randint(1, maxdom)]) if dsh == "dom" else None
         maxdoy = {"360": 360, "365": 365}.get(md, 366)
         doy = rng.choice([1, 59, 60, 61, maxdoy - 1, maxdoy, rng.randint(1, maxdoy)]) if dsh == "doy" else None
-        maxwk = 51 if md == "360" else 53
-        wk = rng.choice([1, 2, 52 if md != "360" else 51, maxwk, rng.randint(1, maxwk)]) if "wk" in dsh else None
+        # the longest week-year: 52 weeks in the 360-day calendar; one value above it is generated too
+        # (refused by the constructor since fix F15; before it, week 53 there never terminated)
+        maxwk = 52 if md == "360" else 53
+        wk = rng.choice([1, 2, maxwk - 1, maxwk, maxwk, maxwk + 1, rng.randint(1, maxwk)]) if "wk" in dsh else None
         z = rand_zone(rng) if rng.random() < 0.3 else None
         # the full point: half of the time close to a match of the time fields
         if ts and rng.random() < 0.5:
